@@ -5,8 +5,9 @@
    Coordinates and confidences themselves are opaque; where an operation's effect on mask / zero-ness
    depends on them (random draws, interpolated confidences, zero deviations, dtype / memory layout) the
    operation carries that fact as an explicit oracle argument, so theorems quantify over every outcome.
-   F11 (3-D bbox) and F7/F8 (Torch/TF mask from confidence) are modelled as repaired
-   (proposed-fixes/F11-bbox-3d.diff, F7F8-backend-mask.diff). *)
+   The model follows /repo with the fixes F11 (3-D bbox, 652ec5e), F7/F8 (Torch/TF mask from confidence,
+   9125995), cb8efcf (box of a component without points), ef3ccc0 (empty index list on TensorFlow),
+   ea2a495 (matmul mask) and 4fd01d7 (TensorFlow dropout). *)
 From Coq Require Import String Ascii List Arith Bool ZArith NArith.
 Require Import Result Tensor.
 Import ListNotations.
@@ -81,7 +82,7 @@ Definition np_ctor (m c : tensor bool) : result (tensor bool) :=
 Definition np_fin (mc : tensor bool * tensor bool) : result (tensor bool * tensor bool) :=
   do m' <- np_ctor (fst mc) (snd mc); Ok (m', snd mc).
 (* TorchPoseBody / TensorflowPoseBody.__init__ on a plain tensor (torch/pose_body.py:20-26,
-   tensorflow/pose_body.py:40-44, repaired F7/F8): valid = confidence != 0, stacked data.shape[-1] times *)
+   tensorflow/pose_body.py:40-44): valid = confidence != 0, stacked data.shape[-1] times *)
 Definition conf_mask (F P T D : nat) (c : tensor bool) : tensor bool := tab4 F P T D (fun f p t _ => get3 c f p t).
 
 (* structural re-indexing of frames and points, values and confidence together *)
@@ -157,13 +158,9 @@ Fixpoint dict_of_assignments {V} (l : list (name * V)) : list (name * V) :=
 Definition get_points (be : backend) (F P T D : nat) (idxs : list nat) (m c : tensor bool) : result (tensor bool * tensor bool) :=
   if negb (forallb (fun i => i <? T) idxs) then Err Index else
   let r := regather F P (length idxs) D idf (fun j => nth j idxs 0) m c in
-  match be with
-  | Np => np_fin r
-  | Torch => Ok r
-  | Tf => match idxs with [] => Err Value (* tf.gather with an empty Python list *) | _ => Ok r end
-  end.
+  match be with Np => np_fin r | _ => Ok r end.
 
-(* NumPyPoseBody.bbox (numpy/pose_body.py:264-298, repaired F11); header.bbox (pose_header.py:423-438) *)
+(* NumPyPoseBody.bbox (numpy/pose_body.py:264-300); header.bbox (pose_header.py:429-444) *)
 Definition bbox_rows : nat := 2.                                   (* ma.stack([min, max]) ; box_points has 2 names *)
 Definition box_points : list name := Eval compute in map nm ["TOP_LEFT"; "BOTTOM_RIGHT"]%string.
 Fixpoint comp_ranges (h : header) (idx : nat) : list (nat * nat) :=
@@ -171,9 +168,9 @@ Fixpoint comp_ranges (h : header) (idx : nat) : list (nat * nat) :=
 Definition bbox_np (h : header) (F P T D : nat) (m c : tensor bool) : result (tensor bool * tensor bool) :=
   let rs := comp_ranges h 0 in
   match rs with [] => Err Value (* ma.concatenate([]) *) | _ =>
-  if existsb (fun r => snd r =? 0) rs then Err Value (* min over an empty axis *) else
   if T <? total_points h then Err Index else
   let T' := bbox_rows * length rs in
+  (* a component without points is replaced by one fully missing point: its box is missing (vacuous conjunction) *)
   let m1 := tab4 F P T' D (fun f p j d => let r := nth (j / bbox_rows) rs (0, 0) in
                                           forallb (fun t => get4 m f p t d) (seq (fst r) (snd r))) in
   let c1 := tab3 F P T' (fun f p j => get4 m1 f p j 0) in
@@ -223,29 +220,31 @@ Definition select_frames (be : backend) (F P T D : nat) (ix : list Z) (m c : ten
   match be, ix with
   | Tf, [] => Err Value                                            (* tf.gather with an empty Python list *)
   | Np, _ => do ixn <- rmapM (norm_index true F) ix; gather_frames be F P T D ixn m c
-  | _, _ =>                                                        (* torch / tf.gather do not bounds-check an index into a tensor without elements *)
-      if P * T * D =? 0 then gather_frames be F P T D (map (fun _ => 0) ix) m c
+  | _, _ =>   (* torch / tf.gather do not bounds-check an index into a tensor without elements (torch does when there are no frames) *)
+      if P * T * D =? 0 then
+        match be, F, ix with
+        | Torch, 0, _ :: _ => Err Index
+        | _, _, _ => gather_frames be F P T D (map (fun _ => 0) ix) m c
+        end
       else do ixn <- rmapM (norm_index (match be with Tf => false | _ => true end) F) ix; gather_frames be F P T D ixn m c
   end.
 (* frame_dropout_given_percent (pose_body.py:553-578; tensorflow/pose_body.py:70-100): select_frames of the drawn indexes *)
 Definition dropout (be : backend) (F P T D : nat) (sel : list nat) (m c : tensor bool) : result (tensor bool * tensor bool) :=
-  match be, F with
-  | Tf, 0 => Err Value                                             (* tf.range(data_len - 1) with no frames *)
-  | _, _ => if negb (forallb (fun i => i <? F) sel) then Err Index else gather_frames be F P T D sel m c
-  end.
+  if negb (forallb (fun i => i <? F) sel) then Err Index else gather_frames be F P T D sel m c.
 
 (* NumPyPoseBody.flip (numpy/pose_body.py:210-228) *)
 Definition flip_np (D : nat) (axis : Z) (m c : tensor bool) : result (tensor bool * tensor bool) :=
   if ((- Z.of_nat D <=? axis) && (axis <? Z.of_nat D))%Z then np_fin (m, c) else Err Index.
 
 (* PoseBody.augment2d -> matmul (pose_body.py:380-431; numpy/pose_body.py:193-208 ma.dot: a result cell is
-   masked iff every summand is; torch/tensorflow masked/tensor.py matmul keep the mask) *)
+   masked iff every summand is; torch/tensorflow masked/tensor.py matmul: valid iff all of the row is valid) *)
 Definition augment2d (be : backend) (F P T D : nat) (dtype_ok : bool) (m c : tensor bool) : result (tensor bool * tensor bool) :=
   if D <? 2 then Err Value else
+  let r := (tab4 F P T D (fun f p t _ => all_lt D (fun k => get4 m f p t k)), c) in
   match be with
-  | Np => np_fin (tab4 F P T D (fun f p t _ => all_lt D (fun k => get4 m f p t k)), c)
-  | Torch => if dtype_ok then Ok (m, c) else Err Type_
-  | Tf => Ok (m, c)
+  | Np => np_fin r
+  | Torch => if dtype_ok then Ok r else Err Type_
+  | Tf => Ok r
   end.
 
 (* Pose.normalize (pose.py:113-150) *)
@@ -391,7 +390,7 @@ Definition expects_ok_np (st : state) (o : op) : bool :=
       negb (D =? 0) &&
       match o with
       | GetComponents _ _ | RemoveComponents _ _ => false
-      | BBox => forallb (fun c => negb (length (c_points c) =? 0)) (s_hdr st)
+      | BBox => true
       | Interpolate newF cz' =>
           negb (F =? 1) && (0 <=? newF)%Z && negb (P =? 0) && negb (T =? 0) && (length cz' =? Z.to_nat newF * P * T)
       | SliceStep by_ => negb (by_ =? 0)%Z
